@@ -161,7 +161,7 @@ def step (s : DState) (ws : List String) : DState × String :=
     | none => (s, "bad-prog")
   | ["offset", f] =>
     match funcIndex s.prog f with
-    | some i => match labelOffset s.code i with
+    | some i => match debugOffset s.code s.prog.length i with
       | some o => (s, toString o)
       | none => (s, "none")
     | none => (s, "none")
